@@ -1240,13 +1240,18 @@ def plan_C14(tier, rng):
                                 if trim:
                                     cs.write(ep, F["name"], 0, bits, c, wo=True, opts=dict(o, trim=False))
     # other radices: counts, padding, notation flags, trim, punctuation
-    for r in ([2, 16, 3, 36] if quick else [2, 4, 8, 16, 32, 3, 7, 12, 36]):
+    for r in ([2, 16, 3, 36, 28, 7] if quick else [2, 4, 8, 16, 32, 3, 7, 12, 21, 28, 36]):
         rc = radix_cfgs(r, cfgs)
         if not rc:
             continue
         ec = exp_char(r)
         for F in (F64, F32):
-            for (bits, tag) in writer_floats(F, rng, 8 if quick else 150, 8 if quick else 150):
+            vals = writer_floats(F, rng, 8 if quick else 150, 8 if quick else 150)
+            # values whose digits contain zeros: d + j / r^k for small d, j
+            for _ in range(12 if quick else 200):
+                k = rng.choice([2, 3, 4, 5])
+                vals.append((gens.pyfloat_bits(F, rng.randrange(1, r) + rng.randrange(1, r) / float(r ** k)), "digits-with-zeros"))
+            for (bits, tag) in vals:
                 i += 1
                 ep = cs.new_ep()
                 c = [rc[i % len(rc)]]
@@ -1254,6 +1259,10 @@ def plan_C14(tier, rng):
                 for g in samp(rng, grid, 2):
                     cs.write(ep, F["name"], radix_fmt(r), bits, c, wo=True, opts=wf(**dict(g, exp=ec)))
                 cs.write(ep, F["name"], radix_fmt(r), bits, c, wo=True, opts=wf(exp=ec, trim=True))
+                # max = min: exactly that many digits, whatever rounding leaves (zeros trimmed after rounding must be padded back)
+                mm = rng.choice([2, 3, 4, 5, 6])
+                cs.write(ep, F["name"], radix_fmt(r), bits, c, wo=True, opts=wf(exp=ec, max=mm, min=mm))
+                cs.write(ep, F["name"], radix_fmt(r), bits, c, wo=True, opts=wf(exp=ec, max=mm, min=mm, pos=60, neg=-60))
     # exact ties behind a letter digit in even generic radices: 1 + (d + 1/2) / r is a dyadic rational when the odd part of r
     # divides 2d + 1, so its digits are exactly "1.<d><r/2>" and max_significant_digits = 2 is a tie on the digit d
     # (fix 'parity of the digit, not of its ASCII code': radix 12 "1.A6" -> "1.A", not "1.B")
